@@ -6,6 +6,25 @@
 #define NO_STUB_MEMMOVE
 #define NO_STUB_STRLEN
 #define NO_STUB_STRCHR
+/* exact byte-loop copies (CBMC's built-in model loses pointer values when the length is symbolic) */
+void *memcpy(void *d, const void *s, size_t n)
+{
+	size_t k_;
+	for (k_ = 0; k_ < n; k_++)
+		((char *) d)[k_] = ((const char *) s)[k_];
+	return d;
+}
+void *memmove(void *d, const void *s, size_t n)
+{
+	size_t k_;
+	if ((char *) d <= (const char *) s)
+		for (k_ = 0; k_ < n; k_++)
+			((char *) d)[k_] = ((const char *) s)[k_];
+	else
+		for (k_ = n; k_ > 0; k_--)
+			((char *) d)[k_ - 1] = ((const char *) s)[k_ - 1];
+	return d;
+}
 #endif
 #define STRLEN_HOOK
 #define MEMCPY_HOOK
